@@ -105,7 +105,7 @@ package limiter
 
 //@ func (*rateLimiter).cleanupTimeoutClient$1 props C18
 //@   requires [n_range] 1 <= r.shardCount && r.shardCount <= 4294967295
-//@   modifies storeops, localdeletes, conddeleted, instcleared, hashwritten
+//@   modifies storeops, localdeletes, conddeleted, instcleared, hashwritten, listedconds
 //@   ensures [cleared_everywhere] forall sh int :: {sh in r.limitStoreMap} (sh in r.limitStoreMap) ==> (instance in instcleared[r.limitStoreMap[sh]])
 //@   ensures [only_this_instance] forall s ref, i string :: {i in instcleared[s]} (i in instcleared[s]) && !old(i in instcleared[s]) ==> i == instance
 //@   loop 0: invariant [bounds] 0 <= idx && idx <= len(rangekeys)
@@ -142,7 +142,7 @@ package limiter
 //@ func (*rateLimiter).cleanupUnknownCondition props C18
 //@   requires [typed] hbTyped
 //@   requires [n_range] 1 <= r.shardCount && r.shardCount <= 4294967295
-//@   modifies storeops, localdeletes, conddeleted, instcleared, hashwritten
+//@   modifies storeops, localdeletes, conddeleted, instcleared, hashwritten, listedconds
 //@   ensures [live_untouched] clearedOnlyDead
 //@   ensures [todelete_cleared] afterloop(5) ==> forall i string, sh int :: {i in clientsToDelete, sh in r.limitStoreMap} (i in clientsToDelete) && (sh in r.limitStoreMap) ==> (i in instcleared[r.limitStoreMap[sh]])
 //@   loop 0: invariant [bounds] 0 <= idx && idx <= len(rangekeys) && clientsExact
